@@ -8,14 +8,17 @@
    a fault is EXACTLY a delay (transparency), the two anchored mechanisms on single steps, and the
    errno classification of the CURRENT source (regenerated, Gen_Conn.v).
    Part 2 - the listener (C11_Model: Acceptor::handleRead over the regenerated switch table of
-   sockets::accept), the classification of connect errors (regenerated switch of
-   Connector::connect; the retry behaviour itself is C12's), the poll call of both back-ends
-   (regenerated guards).
+   sockets::accept, its EMFILE branch run statement by statement as regenerated), the
+   classification of connect errors (regenerated switch of Connector::connect; the retry behaviour
+   itself is C12's).
+   Part 3 - the poll call of both back-ends executed from its regenerated pieces (guards AND what
+   every branch does, fail closed), the body of EventLoop::loop / doPendingFunctors executed
+   statement by statement, and what an interrupted poll does to the loop.
    Tie: differential execution of both models against the real classes under scripted faults,
    every faulted scenario also run as its fault-free twin (bin/check C11). *)
 From Coq Require Import List ZArith Lia Bool Arith NArith.
 From Coq.Strings Require Import Byte.
-From Muduo Require Import Gen_Consts Gen_Conn Gen_C11 C11_Model C11_Proofs
+From Muduo Require Import Gen_Consts Gen_Conn Gen_C11 C11_Model C11_Proofs C11_ProofsLoop
                           Conn_Model Conn_Proofs Conn_Faults Conn_GenTie Conn_GenTieRead.
 Import ListNotations.
 
@@ -23,16 +26,17 @@ Import ListNotations.
 (* Part 1: a transient fault on a connection is exactly a delay                                 *)
 (* ========================================================================================== *)
 (* HEADLINE.  Take any history - any state c to start from - and replace every transient fault
-   by the corresponding zero-progress outcome ([calm], below: a failed write of a non-empty block
-   becomes a write that took 0 bytes; a failed drain, a failed read, an error event, a failed
-   write of an empty block simply do not happen).  The calmed history is accepted, contains no
+   by the corresponding zero-progress outcome ([calm], below: a failed write of a block - empty or
+   not, the user's send() is never erased - becomes a write that took 0 bytes; a failed drain, a
+   failed read, an error event simply do not happen).  The calmed history is accepted, contains no
    fault, and ends in THE SAME STATE c' - every field: wire, backlog, input buffer, state, write
    and read interest, registration, functor queue (pending notifications included), half-close -
    with the same events apart from error-log lines ([quiet]).  So no byte is lost, duplicated or
    reordered, no callback is missed or repeated, nothing is wedged: whatever the fault-free
    history guarantees (Properties_C01 / C03 / C13) the faulted one does.
-   [env_ok_run]: the kernel never fails the ZERO-LENGTH write of a queued empty block with a
-   transient error (write(fd, p, 0) on a socket returns 0); see C11_empty_block_fault_visible. *)
+   [env_ok_run]: the kernel never fails a ZERO-LENGTH write with a transient error (write(fd, p, 0)
+   on a socket returns 0) - neither that of a queued empty block nor the direct one of a loop-thread
+   send of an empty block; see C11_empty_block_fault_visible, C11_empty_send_fault_visible. *)
 Theorem C11_fault_transparent : forall ops c c' e,
   run c ops = Ok (c', e) -> env_ok_run c ops ->
   exists e', run c (flat_map calm ops) = Ok (c', e') /\ quiet e' = quiet e /\
@@ -49,7 +53,7 @@ Print Assumptions C11_transient_def.
 Theorem C11_calm_def : forall o,
   calm o =
   match o with
-  | Send d k => if transient k then match d with [] => [] | _ => [Send d (Accept 0)] end else [o]
+  | Send d k => if transient k then [Send d (Accept 0)] else [o]
   | RunOne k => if transient k then [RunOne (Accept 0)] else [o]
   | EvWritable k => if transient k then [] else [o]
   | EvReadErr | EvError => []
@@ -77,6 +81,7 @@ Theorem C11_env_ok_def : forall c o,
   env_ok c o =
   match o with
   | RunOne k => match pending c with FSend _ [] :: _ => transient k = false | _ => True end
+  | Send [] k => if negb (writing c) && (length (outb c) =? 0) then transient k = false else True
   | _ => True
   end.
 Proof. exact env_ok_unfold. Qed.
@@ -133,6 +138,16 @@ Theorem C11_empty_block_fault_visible :
 Proof. exact empty_block_fault_visible. Qed.
 Print Assumptions C11_empty_block_fault_visible.
 
+(* the same for the direct zero-length write of a loop-thread send of an empty block (nothing queued,
+   write interest off): with Err EAGAIN no write-complete is queued, with "0 bytes taken" one is.
+   Hence the [Send [] k] clause of [env_ok]; without it the theorem would be false for this history. *)
+Theorem C11_empty_send_fault_visible :
+  exists c c1 c2 e1 e2, reach c /\
+    step c (Send [] (Err EAGAIN)) = Ok (c1, e1) /\ step c (Send [] (Accept 0)) = Ok (c2, e2) /\
+    pending c1 = [] /\ pending c2 = [FWriteComplete].
+Proof. exact empty_send_fault_visible. Qed.
+Print Assumptions C11_empty_send_fault_visible.
+
 (* ---- source: the errno classification of the direct write in the CURRENT sendInLoop ---------- *)
 (* `errno != EWOULDBLOCK` (not logged), `errno == EPIPE || errno == ECONNRESET` (fatal: the block
    is dropped); EAGAIN is EWOULDBLOCK on this platform.  Moving an errno between the classes in
@@ -184,10 +199,17 @@ Theorem C11_accept_transient : forall a e,
 Proof. exact accept_transient. Qed.
 Print Assumptions C11_accept_transient.
 
+(* [idle_ok] (the spare descriptor idleFd_ is open on /dev/null) and [open_fds] (descriptors the
+   listener holds) are COMPUTED by C11_Model.handleRead from the EMFILE branch as it stands in the
+   source (acceptor_valve_protocol, regenerated; run by run_valve / valve_step, C11_valve_step_def):
+     open_fds' = open_fds - [spare was open] + [spare is open] + #(descriptor numbers overwritten while open).
+   So the descriptor conjuncts below are consequences of the source's statements, not constants of
+   the model (REVIEW_C item 5); a dropped or misplaced close/open in the branch breaks them. *)
+
 (* EMFILE with a connection pending: exactly one pending connection is accepted on the spare
    descriptor and closed, the spare descriptor is valid again, the descriptor census is unchanged *)
 Theorem C11_emfile_closes_pending : forall a n,
-  dead a = false -> pendq a = S n ->
+  dead a = false -> idle_ok a = true -> (0 < open_fds a)%nat -> pendq a = S n ->
   handleRead a (AErr errno_EMFILE) =
   (mkAcc n true (handed a) (S (valved a)) (open_fds a) false, [ValveClosed]).
 Proof. exact emfile_closes_pending. Qed.
@@ -195,13 +217,15 @@ Print Assumptions C11_emfile_closes_pending.
 
 (* with the shortage persisting, as many dispatches as there are pending connections empty the
    listen queue, after which a level-triggered listener is no longer ready: no spinning *)
-Theorem C11_emfile_no_spin : forall a, dead a = false -> pendq (starve a (pendq a)) = O.
+Theorem C11_emfile_no_spin : forall a, dead a = false -> idle_ok a = true /\ (0 < open_fds a)%nat ->
+  pendq (starve a (pendq a)) = O.
 Proof. exact emfile_no_spin. Qed.
 Print Assumptions C11_emfile_no_spin.
 
-Theorem C11_emfile_accounting : forall a n, dead a = false ->
+Theorem C11_emfile_accounting : forall a n, dead a = false -> idle_ok a = true /\ (0 < open_fds a)%nat ->
   pendq (starve a n) = (pendq a - n)%nat /\ dead (starve a n) = false /\
   handed (starve a n) = handed a /\ open_fds (starve a n) = open_fds a /\
+  idle_ok (starve a n) = true /\
   (valved (starve a n) = valved a + Nat.min n (pendq a))%nat.
 Proof. exact starve_pendq. Qed.
 Print Assumptions C11_emfile_accounting.
@@ -215,35 +239,17 @@ Proof. exact handleRead_no_abort_on_expected. Qed.
 Print Assumptions C11_accept_never_aborts_on_transient.
 
 (* every connection that reached the listen queue ends handed over, closed by the valve, or is
-   still pending: none lost, none duplicated, no descriptor leaked, for every history *)
-Theorem C11_accept_conservation : forall ops a, dead a = false ->
+   still pending: none lost, none duplicated; after every history the listener holds as many
+   descriptors as before (none leaked) and its spare descriptor is valid - from any state in which
+   the spare descriptor is valid, the initial one included (ex_emfile) *)
+Theorem C11_accept_conservation : forall ops a, dead a = false -> idle_ok a = true /\ (0 < open_fds a)%nat ->
   let a' := fst (arun a ops) in
   dead a' = false ->
   (pendq a' + handed a' + valved a' =
    pendq a + handed a + valved a + length (filter (fun o => match o with Connect => true | _ => false end) ops))%nat
-  /\ open_fds a' = open_fds a.
+  /\ open_fds a' = open_fds a /\ idle_ok a' = true.
 Proof. exact conservation. Qed.
 Print Assumptions C11_accept_conservation.
-
-(* the poll call: an interrupted (or otherwise failed) epoll_wait / poll hands no channel to the
-   loop and the iteration goes on *)
-Theorem C11_poll_eintr : forall e, poll_iteration (PErr e) = (0%nat, true).
-Proof. exact poll_fault_iterates. Qed.
-Print Assumptions C11_poll_eintr.
-
-(* ... and that model IS the current EPollPoller::poll / PollPoller::poll: the three-way split
-   `numEvents > 0` / `numEvents == 0` / else re-assembled from the regenerated guards gives
-   [poll_iteration]; EINTR is not even logged (`savedErrno != EINTR`); channels are filled in
-   only in the first branch and no branch quits or aborts *)
-Theorem C11_poll_is_source :
-  (forall r, fst (poll_src epoll_poll_some_test epoll_poll_none_test epoll_poll_log_test r) = poll_iteration r) /\
-  (forall r, fst (poll_src ppoll_poll_some_test ppoll_poll_none_test ppoll_poll_log_test r) = poll_iteration r) /\
-  snd (poll_src epoll_poll_some_test epoll_poll_none_test epoll_poll_log_test (PErr errno_EINTR)) = false /\
-  snd (poll_src ppoll_poll_some_test ppoll_poll_none_test ppoll_poll_log_test (PErr errno_EINTR)) = false /\
-  epoll_poll_fills_only_when_some = true /\ epoll_poll_log_test_in_error_branch = true /\
-  ppoll_poll_fills_only_when_some = true /\ ppoll_poll_log_test_in_error_branch = true.
-Proof. exact poll_is_source. Qed.
-Print Assumptions C11_poll_is_source.
 
 (* connect: EINPROGRESS proceeds to watching writability; ECONNREFUSED / ENETUNREACH are in the
    retry class; none of the three is in the give-up class (regenerated switch table) *)
@@ -315,9 +321,9 @@ Print Assumptions C11_acceptor_guards.
    descriptor is valid again, nothing leaked, and the listener state is the one handleRead computes.
    Dropping or reordering a statement of the branch breaks this lemma. *)
 Theorem C11_valve_protocol_is_model : forall a,
-  dead a = false -> idle_ok a = true ->
+  dead a = false -> idle_ok a = true -> (0 < open_fds a)%nat ->
   let v := run_valve (mkValve IdleNull (pendq a) 0 0) acceptor_valve_protocol in
-  v_idle v = IdleNull /\ v_leaked v = 0%nat /\
+  v_idle v = IdleNull /\ v_leaked v = 0%nat /\ (v_pend v + v_closed v = pendq a)%nat /\ (v_closed v <= 1)%nat /\
   fst (handleRead a (AErr errno_EMFILE)) =
     mkAcc (v_pend v) true (handed a) (valved a + v_closed v) (open_fds a) false.
 Proof. exact valve_protocol_is_model. Qed.
@@ -339,20 +345,211 @@ Proof. exact valve_step_unfold. Qed.
 Print Assumptions C11_valve_step_def.
 
 (* ========================================================================================== *)
+(* Part 3: EINTR on the poll call - the loop neither exits, aborts nor spins                      *)
+(* ========================================================================================== *)
+(* (rewritten 2026-10-02 after REVIEW_C item 2.)  Nothing below is a literal of the model:
+   [poll_call src a k] EXECUTES EPollPoller::poll / PollPoller::poll from their regenerated pieces
+   (lib/gen_C11.py, clang AST, whole function, fail closed): the three guards over the return value
+   and errno, and per branch the codes of its statements - 1 = fillActiveChannels(numEvents,
+   activeChannels), 2 = trace/debug/info log line, 3 = bookkeeping (events_.resize, errno =
+   savedErrno), 4 = warn/error-level log line, ANYTHING ELSE (LOG_SYSFATAL / LOG_FATAL recognised
+   by the Logger constructor's arguments, abort, exit, assert, return, a call or node kind the
+   translator does not know) = 9, which [pstmt] executes as "the process aborts".  *)
+
+(* the current source of both back-ends: entries are handed to the loop only when the system call
+   reported some (n > 0); n == 0 and n < 0 leave the caller's list untouched and RETURN NORMALLY;
+   only an errno other than EINTR is logged; no outcome aborts.  A LOG_SYSFATAL, an abort(), a
+   fillActiveChannels or anything untranslatable in the n == 0 / n < 0 branches breaks this theorem. *)
+Theorem C11_poll_is_source :
+  (forall a k, poll_call epoll_src a k =
+     if k_n k >? 0 then mkPollout (a ++ k_ready k) false false
+     else if k_n k =? 0 then mkPollout a false false
+     else mkPollout a (negb (k_errno k =? errno_EINTR)) false) /\
+  (forall a k, poll_call ppoll_src a k =
+     if k_n k >? 0 then mkPollout (a ++ k_ready k) false false
+     else if k_n k =? 0 then mkPollout a false false
+     else mkPollout a (negb (k_errno k =? errno_EINTR)) false).
+Proof. exact poll_is_source. Qed.
+Print Assumptions C11_poll_is_source.
+
+Theorem C11_poll_call_def : forall src a k,
+  poll_call src a k =
+  let run := fold_left (pstmt (k_ready k)) in
+  let o0 := run (ps_pro src) (mkPollout a false false) in
+  if ps_some src (k_n k) then run (ps_bsome src) o0
+  else if ps_none src (k_n k) then run (ps_bnone src) o0
+  else run (map snd (filter (fun gc => negb (fst gc) || ps_log src (k_errno k)) (ps_berr src))) o0.
+Proof. exact poll_call_unfold. Qed.
+Print Assumptions C11_poll_call_def.
+
+Theorem C11_pstmt_def : forall ready o code,
+  pstmt ready o code =
+  if po_aborted o then o
+  else if code =? 1 then mkPollout (po_active o ++ ready) (po_errlog o) false
+  else if (code =? 2) || (code =? 3) then o
+  else if code =? 4 then mkPollout (po_active o) true false
+  else mkPollout (po_active o) (po_errlog o) true.
+Proof. exact pstmt_unfold. Qed.
+Print Assumptions C11_pstmt_def.
+
+(* EventLoop::loop: the condition of its while loop is `!quit_`, and its body and doPendingFunctors
+   AS THEY STAND IN THE SOURCE (statement codes regenerated, anything unknown = abort), run statement
+   by statement by [iter_src] / [lstmt] / [dstmt], are the loop pass [iter] of C11_Model:
+   activeChannels_.clear(); poll; ++iteration_; handleEvent on EVERY active channel; then
+   doPendingFunctors runs everything pending at that moment (what the handlers queued included),
+   what the functors queue stays for the next pass.  No statement of the body writes quit_, breaks
+   or returns (it would be code 9). *)
+Theorem C11_loop_body_is_source : forall (U : Type) (hnd fnb : behaviour U) src l k,
+  iter_src hnd fnb src eventloop_loop_body eventloop_doPending_body l k = iter hnd fnb src l k /\
+  eventloop_while_cond_is_not_quit = true.
+Proof. exact loop_body_is_source. Qed.
+Print Assumptions C11_loop_body_is_source.
+
+Theorem C11_iter_def : forall (U : Type) (hnd fnb : behaviour U) src l k,
+  iter hnd fnb src l k =
+  let o := poll_call src [] k in
+  if po_aborted o then
+    (mkL (l_user l) (l_pending l) (l_quit l) (l_iter l) (po_active o), mkIT [] [] [] (po_errlog o), true)
+  else
+    let '(u1, q1, x1) := run_list hnd (po_active o) (l_user l) in
+    let run := l_pending l ++ q1 in
+    let '(u2, q2, x2) := run_list fnb run u1 in
+    (mkL u2 q2 (l_quit l || x1 || x2) (S (l_iter l)) (po_active o),
+     mkIT (po_active o) run (q1 ++ q2) (po_errlog o), false).
+Proof. exact iter_unfold. Qed.
+Print Assumptions C11_iter_def.
+
+(* `while (!quit_) { pass }`, one environment input per pass: what other threads did while the loop
+   thread was blocked (queueInLoop / quit) and how the poll call returned *)
+Theorem C11_loop_run_def : forall (U : Type) (hnd fnb : behaviour U) src l ins,
+  loop_run hnd fnb src l ins =
+  match ins with
+  | [] => (l, [], false)
+  | (xs, k) :: rest =>
+      if l_quit l then (l, [], false)
+      else
+        let l1 := fold_left apply_ext xs l in
+        let '(l2, t, ab) := iter hnd fnb src l1 k in
+        let t' := mkIT (t_disp t) (t_ran t) (ext_queued xs ++ t_queued t) (t_errlog t) in
+        if ab then (l2, [t'], true)
+        else let '(l3, ts, ab') := loop_run hnd fnb src l2 rest in (l3, t' :: ts, ab')
+  end.
+Proof. exact loop_run_unfold. Qed.
+Print Assumptions C11_loop_run_def.
+
+(* HEADLINE of part 3.  A pass whose poll call was interrupted (errno e; EINTR or any other
+   failure), under either current back-end, from ANY loop state: no channel is dispatched; every
+   pending functor still runs, in order (doPendingFunctors is not skipped); quit_ is set only if one
+   of those functors called quit() - the failed poll itself never ends the loop; the pass counts as
+   one iteration; nothing aborts; EINTR is silent (other errnos log one line). *)
+Theorem C11_poll_eintr : forall (U : Type) (hnd fnb : behaviour U) src,
+  src = epoll_src \/ src = ppoll_src ->
+  forall l e ready,
+  iter hnd fnb src l (k_intr e ready) =
+  let '(u, q, x) := run_list fnb (l_pending l) (l_user l) in
+  (mkL u q (l_quit l || x) (S (l_iter l)) [],
+   mkIT [] (l_pending l) q (negb (e =? errno_EINTR)), false).
+Proof. exact poll_eintr. Qed.
+Print Assumptions C11_poll_eintr.
+
+(* faults are a delay: in EVERY run, replacing each failed poll call by one that timed out
+   ([calm_in]: return value 0 - the fault-free way of "nothing happened yet") gives the same final
+   state and the same passes (dispatches, functor runs, queueings), apart from the error-log flag;
+   neither run aborts *)
+Theorem C11_interrupted_poll_is_a_delay : forall (U : Type) (hnd fnb : behaviour U) src,
+  src = epoll_src \/ src = ppoll_src ->
+  forall ins l,
+  let '(l1, ts1, ab1) := loop_run hnd fnb src l ins in
+  let '(l2, ts2, ab2) := loop_run hnd fnb src l (map calm_in ins) in
+  l2 = l1 /\ map quiet_t ts2 = map quiet_t ts1 /\ ab1 = false /\ ab2 = false.
+Proof. exact interrupted_poll_is_a_delay. Qed.
+Print Assumptions C11_interrupted_poll_is_a_delay.
+
+(* a finite burst of interrupted polls on a loop with nothing pending that nobody touches meanwhile,
+   followed by ANY pass (normal or not, with whatever other threads did before it): exactly the
+   final state, dispatches and functor runs of that pass alone; iteration_ is larger by the length
+   of the burst and every pass of the burst is empty: iteration count = k + 1 *)
+Theorem C11_interrupt_burst_then_normal : forall (U : Type) (hnd fnb : behaviour U) src,
+  src = epoll_src \/ src = ppoll_src ->
+  forall (errs : list (Z * list nat)) l xs k, l_pending l = [] -> l_quit l = false ->
+  loop_run hnd fnb src l (map (fun er => ([], k_intr (fst er) (snd er))) errs ++ [(xs, k)]) =
+  let '(l', ts, ab) := loop_run hnd fnb src l [(xs, k)] in
+  (mkL (l_user l') (l_pending l') (l_quit l') (length errs + l_iter l') (l_active l'),
+   map (fun er => mkIT [] [] [] (negb (fst er =? errno_EINTR))) errs ++ ts, ab).
+Proof. exact interrupt_burst_then_normal. Qed.
+Print Assumptions C11_interrupt_burst_then_normal.
+
+(* no spinning.  (1) An idle loop hit by k interrupts is afterwards exactly where it was - same user
+   state, nothing pending, quit_ clear - with iteration_ + k: an interrupted pass leaves nothing behind
+   (no functor, no wake-up, no change of anything a callback acts on) that could make the loop go round
+   again by itself; every further pass needs a further return of the poll call, i.e. a further
+   signal delivery by the environment.  (2) in EVERY run the number of passes is at most the number
+   of environment inputs and iteration_ advances by exactly that number (part of the next theorem). *)
+Theorem C11_poll_eintr_no_spin : forall (U : Type) (hnd fnb : behaviour U) src,
+  src = epoll_src \/ src = ppoll_src ->
+  forall (errs : list (Z * list nat)) l, l_pending l = [] -> l_quit l = false -> errs <> [] ->
+  loop_run hnd fnb src l (map (fun er => ([], k_intr (fst er) (snd er))) errs) =
+  (mkL (l_user l) [] false (length errs + l_iter l) [],
+   map (fun er => mkIT [] [] [] (negb (fst er =? errno_EINTR))) errs, false).
+Proof. exact poll_eintr_no_spin. Qed.
+Print Assumptions C11_poll_eintr_no_spin.
+
+(* EVERY run - interrupted polls anywhere, in any number, other threads queueing in between:
+   tasks: the functors run, in order, followed by those still pending are exactly those pending at
+   the start followed by all that were queued, in queueing order (none lost, duplicated, reordered);
+   events: the channels dispatched are exactly the entries reported by the successful poll calls
+   (a failed call contributes none, none is dispatched twice);
+   iteration_ advances by the number of passes, which is at most the number of returns of the poll
+   call; the loop stops before the inputs are used up only with quit_ set; nothing aborts *)
+Theorem C11_loop_conservation : forall (U : Type) (hnd fnb : behaviour U) src,
+  src = epoll_src \/ src = ppoll_src ->
+  forall ins l,
+  let '(l', ts, ab) := loop_run hnd fnb src l ins in
+  concat (map t_ran ts) ++ l_pending l' = l_pending l ++ concat (map t_queued ts) /\
+  concat (map t_disp ts) =
+    concat (map (fun i => if k_n (snd i) >? 0 then k_ready (snd i) else []) (firstn (length ts) ins)) /\
+  l_iter l' = (l_iter l + length ts)%nat /\ (length ts <= length ins)%nat /\
+  ((length ts < length ins)%nat -> l_quit l' = true) /\ ab = false.
+Proof. exact loop_conservation_current. Qed.
+Print Assumptions C11_loop_conservation.
+
+Theorem C11_calm_in_def : forall i,
+  calm_in i = (fst i, if k_n (snd i) <? 0 then mkKans 0 0 [] else snd i).
+Proof. exact calm_in_unfold. Qed.
+Print Assumptions C11_calm_in_def.
+
+(* ========================================================================================== *)
 (* Non-vacuity                                                                                  *)
 (* ========================================================================================== *)
 (* a listener with two pending connections under a persisting shortage *)
 Example ex_emfile :
   let a := client_connects (client_connects acc_init) in
-  dead a = false /\ pendq a = 2%nat /\ pendq (starve a 2) = 0%nat /\ valved (starve a 2) = 2%nat.
+  dead a = false /\ idle_ok a = true /\ open_fds a = 2%nat /\ pendq a = 2%nat /\
+  pendq (starve a 2) = 0%nat /\ valved (starve a 2) = 2%nat /\ open_fds (starve a 2) = 2%nat.
 Proof. vm_compute. repeat split; reflexivity. Qed.
+
+(* the loop: channel 1's handler queues functor 5, functor 10 queues functor 0, functor 99 quits.
+   Two interrupted polls, another thread queueing functor 10 during the second; then a normal poll
+   reporting channels 1 and 2; a time-out; functor 99 from another thread; a last input that is not
+   used any more.  The hypotheses of the theorems of part 3 hold (start: nothing pending, quit_
+   clear) and every kind of pass occurs *)
+Example ex_loop :
+  let hnd : behaviour nat := fun c u => (u + 1, if Nat.eqb c 1 then [5] else [], false)%nat in
+  let fnb : behaviour nat := fun f u => (u + 10, if Nat.eqb f 10 then [0%nat] else [], Nat.eqb f 99)%nat in
+  loop_run hnd fnb epoll_src (mkL 0%nat [] false 0 [])
+    [ ([], k_intr errno_EINTR [7%nat]); ([XQueue 10], k_intr errno_EINTR []);
+      ([], mkKans 2 0 [1%nat; 2%nat]); ([], k_timeout); ([XQueue 99], mkKans 1 0 []); ([XQueue 3], k_timeout) ] =
+  (mkL 42%nat [] true 5 [],
+   [ mkIT [] [] [] false; mkIT [] [10%nat] [10%nat; 0%nat] false; mkIT [1%nat; 2%nat] [0%nat; 5%nat] [5%nat] false;
+     mkIT [] [] [] false; mkIT [] [99%nat] [99%nat] false ], false).
+Proof. vm_compute. reflexivity. Qed.
 
 (* a history with faults at every injection site of a connection and its calmed version: both
    are accepted, end in the same state, and the hypothesis of the transparency theorem holds *)
 Example ex_faulty_twin :
   flat_map calm ex_faulty =
   [ Establish; Send [x61; x62; x63] (Accept 0); FSendCheck 2; FSendEnq 2 [x64];
-    RunOne (Accept 0); EvWritable (Accept 2); EvWritable AcceptAll; RunOne (Accept 0);
+    RunOne (Accept 0); EvWritable (Accept 2); Send [] (Accept 0); EvWritable AcceptAll; RunOne (Accept 0);
     RunOne AcceptAll ] /\
   exists c e e', run (init 4%N true true) ex_faulty = Ok (c, e) /\
     run (init 4%N true true) (flat_map calm ex_faulty) = Ok (c, e') /\
